@@ -64,6 +64,22 @@ func c08Gen(thorough bool) func(emit func(*h1.Scenario)) {
 				sc := b.Done(7200)
 				sc.Note = note
 				emit(sc)
+				// the same with the out-of-sync shards reporting the empty hash (two-shard lists)
+				if n == 2 {
+					b.Rep.Shards = append([]h1.Shard{}, b.Rep.Shards...)
+					any := false
+					for s := range b.Rep.Shards {
+						if b.Rep.Shards[s].HashMode != h1.HashEqual {
+							b.Rep.Shards[s].EmptyHash = true
+							any = true
+						}
+					}
+					if any {
+						sc2 := b.Done(7200)
+						sc2.Note = note + " (empty hash)"
+						emit(sc2)
+					}
+				}
 			})
 		}
 	}
